@@ -40,6 +40,37 @@ fn main() {
             }
         }
     }
+    if args[0] == "fuzz-seeds" && args.len() == 3 {
+        // hv fuzz-seeds <target> <dir>
+        let dir = Path::new(&args[2]);
+        std::fs::create_dir_all(dir).expect("mkdir");
+        for (i, s) in hpke_verif::fuzzdec::seeds(&args[1]).iter().enumerate() {
+            std::fs::write(dir.join(format!("seed-{:04}", i)), s).expect("write seed");
+        }
+        std::process::exit(0);
+    }
+    if args[0] == "fuzz-replay" && args.len() >= 3 {
+        // hv fuzz-replay <target> <file>...   re-decodes inputs outside libFuzzer.
+        // prints FUZZ-VIOLATION lines for reproduced oracle failures; exit 1 if any, else 0
+        let mut bad = 0;
+        let mut nontrivial = 0;
+        let mut total = 0;
+        for f in &args[2..] {
+            let Ok(data) = std::fs::read(f) else { continue };
+            let mut info = hpke_verif::fuzzdec::FuzzInfo::default();
+            total += 1;
+            if let Some(v) = hpke_verif::fuzzdec::fuzz_one(&args[1], &data, &mut info) {
+                println!("FUZZ-VIOLATION property={} signature={} file={} {}", v.property, v.sig, f, v.msg);
+                println!("FUZZ-CASE {}", v.case_json);
+                bad += 1;
+            }
+            if info.nontrivial {
+                nontrivial += 1;
+            }
+        }
+        println!("FUZZ-REPLAY target={} inputs={} nontrivial={} violations={}", args[1], total, nontrivial, bad);
+        std::process::exit(if bad > 0 { 1 } else { 0 });
+    }
     if args.len() < 3 {
         eprintln!("usage: hv check <Cxx> <quick|thorough> | hv replay <Cxx> <path>");
         std::process::exit(2);
